@@ -222,7 +222,9 @@ def _run_dens(case):
             continue
         worst_lp = max(worst_lp, abs(lp - ref) / max(1.0, abs(ref)))
         if pr == 0:
-            ok_in &= bool(lp <= -744)
+            # a density reported as 0 must lie below the NORMAL range (exp(-708.39) = 2.2e-308): in the subnormal range a product
+            # such as exp(-z^2/2) * 1/(sd sqrt(2 pi)) may legitimately flush to zero (thorough seed 1: sd = 3e-12, z = 38.9)
+            ok_in &= bool(lp <= -708.39)
         elif pr < 1e-290:
             # a density in (or next to) the subnormal range carries only a few significant bits: exp(lnprob) can only be
             # required to be just as small there
@@ -575,6 +577,13 @@ def _run_laws(case):
         flags[nm + ".np_add_str_raises"] = _raises(TypeError, lambda: np.add(p, "a"))
         flags[nm + ".np_add_none_raises"] = _raises(TypeError, lambda: np.add(p, None))
         flags[nm + ".np_multiply_none_raises"] = _raises(TypeError, lambda: np.multiply(p, None))
+        # ... for every NumPy function, not only the ones behind the arithmetic operators
+        flags[nm + ".np_other_ufuncs_unsupported_raise"] = bool(_raises(TypeError, lambda: np.maximum(p, None)) and _raises(TypeError, lambda: np.arctan2(p, "a"))
+                                                               and _raises(TypeError, lambda: np.hypot({}, p)) and _raises(TypeError, lambda: np.minimum(p, np.array(["a", "b"])))
+                                                               and (nm == "C" or (_no_raise(lambda: np.maximum(p, 3.0).guess == max(p.guess, 3.0)) and _no_raise(lambda: np.hypot(np.float32(2), p) is not None))))
+        # a NumPy boolean is the Python boolean, on either side
+        flags[nm + ".numpy_bool_like_python_bool"] = bool(_no_raise(lambda: (p * np.bool_(True)) is p and (np.bool_(True) * p) is p and (p + np.bool_(False)) is p)
+                                                          and _raises(TypeError, lambda: p * np.bool_(False)) and _raises((ZeroDivisionError, TypeError), lambda: p / np.bool_(False)))
         flags[nm + ".array_with_zero_times_prior_raises"] = _raises(TypeError, lambda: np.array([0, 1]) * p)
         arr = np.array([3.0, 2.0]) * p
         flags[nm + ".array_mul_elementwise"] = bool(isinstance(arr, np.ndarray) and arr.shape == (2,) and arr[0].guess == p.guess * 3.0 and arr[1].guess == p.guess * 2.0)
@@ -633,6 +642,30 @@ def _run_bad(case):
     flags["bg_nan_bounds"] = bool(_raises(E, lambda: BoundedGaussian(a, w, nan, nan)) and _raises(E, lambda: BoundedGaussian(a, w, nan, a + w))
                                   and _raises(E, lambda: BoundedGaussian(a, w, a - w, nan)))           # (F73)
     flags["uniform_nan_guess"] = _raises(E, lambda: Uniform(a, a + w, guess=nan))                          # (F80)
+    # parameters that are not real numbers, a guess that is not finite
+    flags["complex_parameters_rejected"] = bool(_raises(E, lambda: Gaussian(1j, w)) and _raises(E, lambda: Gaussian(np.complex128(a), w)) and _raises(E, lambda: Gaussian(a, np.complex128(w)))
+                                                and _raises(E, lambda: Uniform(np.complex128(a), a + w)) and _raises(E, lambda: Uniform(a, a + w, guess=np.complex128(a)))
+                                                and _raises(E, lambda: BoundedGaussian(np.complex128(a), w, a - w, a + w)))
+    flags["infinite_guess_rejected"] = bool(_raises(E, lambda: Uniform(a, inf, guess=inf)) and _raises(E, lambda: Uniform(-inf, a, guess=-inf)))
+    # a range check means the same for single-precision and double-precision numbers: what is built can be written out and read back
+    f32 = np.float32(0.1)
+    def _consistent(make):
+        try:
+            q = make()
+        except E:
+            return True
+        try:
+            type(q)(**{k: (v.item() if isinstance(v, np.generic) else v) for k, v in q._dict.items()})
+            return True
+        except E:
+            return False
+    flags["range_checks_same_in_single_and_double_precision"] = bool(_consistent(lambda: Uniform(f32, 1.0, guess=0.1)) and _consistent(lambda: Uniform(0.0, f32, guess=float(f32)))
+                                                                     and _consistent(lambda: BoundedGaussian(0.1, 1.0, lower_bound=f32)) and _consistent(lambda: Uniform(0.0, 1.0, guess=f32)))
+    from holopy.core.prior import ComplexPrior
+    pu = Uniform(a, a + w)
+    flags["complex_prior_parts_checked"] = bool(_raises(TypeError, lambda: ComplexPrior(pu, None)) and _raises(TypeError, lambda: ComplexPrior("a", pu)) and _raises(TypeError, lambda: ComplexPrior(pu, [1.0]))
+                                                and _no_raise(lambda: ComplexPrior(pu, 0.5).guess == complex(pu.guess, 0.5)) and _no_raise(lambda: ComplexPrior(np.float32(1.5), pu) is not None)
+                                                and _no_raise(lambda: ComplexPrior(np.array(1.5), pu).guess == complex(1.5, pu.guess)))
     # the default guess lies in the support whatever the magnitude of finite bounds (F79)
     big = Uniform(1e308, 1.7e308); neg = Uniform(-1.7e308, -1e308)
     flags["default_guess_in_support_at_huge_bounds"] = bool(1e308 <= big.guess <= 1.7e308 and -1.7e308 <= neg.guess <= -1e308)
